@@ -41,7 +41,14 @@ func (c *Conversation) receiveUnit(m ValidMessage, forgetFragments bool) (plain 
 	case msgGuessUnknown:
 		c.messageEvent(MessageEventReceivedMessageUnrecognized)
 	case msgGuessDHCommit, msgGuessDHKey, msgGuessRevealSig, msgGuessSignature, msgGuessData:
+		c.ignoredForOtherInstance = false
 		plain, messagesToSend, err = c.receiveEncoded(encodedMessage(message))
+		if c.ignoredForOtherInstance {
+			// A message from or for another instance is not part of this
+			// conversation - like a fragment of another instance it must
+			// leave the fragments collected so far alone
+			shouldForgetFragment = false
+		}
 	}
 
 	if shouldForgetFragment && forgetFragments {
@@ -154,6 +161,7 @@ func (c *Conversation) receiveDecoded(message messageWithHeader) (plain MessageP
 	var messageHeader, messageBody []byte
 	if messageHeader, messageBody, err = c.parseMessageHeader(message); err != nil {
 		if err == errReceivedMessageForOtherInstance {
+			c.ignoredForOtherInstance = true
 			err = nil
 		}
 		return
